@@ -21,10 +21,10 @@ def slim(rec):
     return {k: v for k, v in rec.items() if k not in ("file", "feat", "dur_us")}
 
 
-def gen(ctx, n, seed, par):
+def gen(ctx, n, seed, par, long=0):
     vh = ctx.build(PKG)
     out = os.path.join(ctx.sub("playgen"), "plays.ndjson")
-    ctx.run([vh, "player-gen", "-n", str(n), "-seed", str(seed), "-par", str(par), "-out", out], timeout=1800)
+    ctx.run([vh, "player-gen", "-n", str(n), "-seed", str(seed), "-par", str(par), "-long", str(long), "-out", out], timeout=1800)
     return [json.loads(x) for x in open(out)]
 
 
@@ -114,7 +114,7 @@ def run(ctx):
     # binding
     recs = []
     for s in ([ctx.seed] if q else [ctx.seed * 100 + i for i in range(6)]):
-        recs += gen(ctx, 250 if q else 700, s, 6)
+        recs += gen(ctx, 250 if q else 700, s, 6, long=1 if q else 3)
     for i, r in enumerate(recs):
         r["id"] = i
     fails = validate(ctx, recs)
